@@ -341,6 +341,16 @@ def r8_per_recipient_bytes(ctx):
     ctx.instances[before:] = keep
 
 
+def r9_client_delivery_order(ctx):
+    """In order: events that had to wait in the client's queue are delivered before anything received later (the delivery-order part
+    of C04.R3)."""
+    import rules.C04 as C04
+    before = len(ctx.instances)
+    C04.r3_client_gate(ctx)
+    keep = [i for i in ctx.instances[before:] if "queue-released-before-new-events" in i["key"] or "two-delivery-paths" in i["key"] or "queued-delivery-from-pop_if_le" in i["key"] or (not i["ok"] and i.get("kind") == "anchor-missing")]
+    ctx.instances[before:] = keep
+
+
 RULES = [
     ("C05.R1", "recipient selection: three implementations, every SendMode arm guarded as the mode demands", r1_recipients, 18, ["default", "all-features", "server-only"]),
     ("C05.R2", "clients that connected after buffering are excluded in every arm", r2_late_joiners, 6, ["default", "all-features", "server-only"]),
@@ -350,5 +360,6 @@ RULES = [
     ("C05.R6", "event channels are created from the registered channel kind and remembered", r6_channels, 4, ["default", "all-features"]),
     ("C05.R7", "events queued in a previous session cannot resurface (queue reset on connect, event pools emptied)", r7_no_old_session_events, 3, ["default", "all-features"]),
     ("C05.R8", "every recipient gets bytes built for its own tick (stamping cache, same rule as C04.R2)", r8_per_recipient_bytes, 5, ["default", "all-features", "server-only"]),
+    ("C05.R9", "the client delivers queued (older) events before events received later (same rule as C04.R3)", r9_client_delivery_order, 3, ["default", "all-features", "client-only"]),
 ]
 THOROUGH_CONFIGS = ["default", "all-features", "server-only"]
